@@ -22,7 +22,13 @@ RULE = ("exhaustive over all multisets of <= 4 ballots (every partial ranking, b
         "tot_ballots in {#cards, #cards with the contest, larger} and always >= #ballots >= 1, so neither shipped "
         "difficulty function divides by zero (they are only called with winner tally > loser tally >= 0); hints "
         "always list every candidate (list.index would raise ValueError otherwise); ballots mention declared "
-        "candidates only; non-trivial = >= 3 candidates (empty results included: they exercise the 'audit not possible' exits); distinct = distinct canonical input")
+        "candidates only; candidate identifiers: letters (half), else numeric strings as in the shipped .raire files, "
+        "handed over as str or as int, and affix / accented / punctuated names, drawn from pools in which one "
+        "identifier is a concatenation, prefix or suffix of others; plus 10-64 contests of 1e5..6e5 cards (3, thorough "
+        "also 4 candidates; sent to the driver as weighted signatures) built so that two different true assertions "
+        "contradicting a binding alternative order have difficulties within a relative 1e-5 of each other, the cheaper "
+        "one being the optimum (70%: the cheaper one is evaluated at a leaf of the search tree, the other at an "
+        "ancestor); non-trivial = >= 3 candidates (empty results included: they exercise the 'audit not possible' exits); distinct = distinct canonical input")
 EXHAUSTIVE = {"quick": False, "thorough": False}
 CONTEST = "1"
 FUEL = 2000000
@@ -114,21 +120,84 @@ def best_true_difficulty(case, wb, pi, asn):
     return best
 
 
+def exact_asn(name):
+    """the shipped difficulty functions as exact rationals of the integer tallies (o = tot - w - l):
+    cp_estimate = 1/(2(w + o/2)/tot - 1) = tot/(w-l);  bp_estimate = 1/(p q^2), p=(w+l)/tot, q=(w-l)/(w+l)"""
+    from fractions import Fraction
+    if name == "cp":
+        return lambda w, l, o, t: Fraction(t, 2 * w + o - t)
+    return lambda w, l, o, t: Fraction((w + l) * t, (w - l) ** 2)
+
+
+def order_families(case, wb, asn):
+    """for every alternative order pi: (difficulties of the true assertions contradicting pi whose winner is the
+    first-eliminated candidate pi[0], difficulties of the other true assertions contradicting pi)"""
+    tot = case["tot"]
+    out = []
+    for pi in alt_orders(case["cands"], case["winner"]):
+        first, rest = [], []
+        for i in range(len(pi)):
+            for j in range(i + 1, len(pi)):
+                w, l = pi[i], pi[j]
+                for W, L in (tally_neb(wb, w, l), tally_nen(wb, w, l, pi[:i])):
+                    if W > L:
+                        (first if i == 0 else rest).append(asn(W, L, tot - (W + L), tot))
+        out.append((pi, first, rest))
+    return out
+
+
+def near_tie_at_optimum(case, rt, directed):
+    """is there a binding alternative order (its cheapest contradicting assertion costs exactly OPT) that a second,
+    different assertion contradicts at a cost within a relative `rt` ABOVE OPT (rt = 0: exactly OPT)?
+    directed: the cheapest one is about the order's first-eliminated candidate (in the search tree: evaluated at
+    the leaf) and the runner-up is not (evaluated at an ancestor of the leaf)"""
+    wb = ballots_of(case)
+    fam = order_families(case, wb, exact_asn(case["asn"]))
+    if any(not f and not r for _, f, r in fam):
+        return False
+    opt = max(min(f + r) for _, f, r in fam)
+    hi = opt * (1 + rt)
+    for _, f, r in fam:
+        if min(f + r) != opt:
+            continue
+        if directed:
+            if f and r and min(f) == opt and ((opt < min(r) <= hi) if rt else min(r) == opt):
+                return True
+        else:
+            if rt:
+                if any(opt < x <= hi for x in f + r):
+                    return True
+            elif sorted(f + r)[1:2] == [opt]:
+                return True
+    return False
+
+
 # ---------------------------------------------------------------------------------------------
 # the implementation
 
+def ident(case):
+    """candidate identifiers are handed to the implementation as str (the shipped loaders) or, with
+    "ids": "int" (decimal strings only), as Python ints; the case itself always holds strings"""
+    return int if case.get("ids") == "int" else (lambda c: c)
+
+
 def build_inputs(case):
     from shangrla.raire.raire_utils import Contest
+    f = ident(case)
     cvrs = {}
     k = 0
     for r, n in case["sigs"]:
-        for _ in range(n):
-            if r is None:
+        if r is None:
+            for _ in range(n):
                 cvrs[str(k)] = {"other": {"X": 0}}
-            else:
-                cvrs[str(k)] = {CONTEST: {c: i for i, c in enumerate(r)}}
-            k += 1
-    contest = Contest(CONTEST, list(case["cands"]), case["winner"], case["tot"], order=list(case["outcome"]))
+                k += 1
+        else:
+            b = {f(c): i for i, c in enumerate(r)}
+            for _ in range(n):
+                cvrs[str(k)] = {CONTEST: dict(b)}
+                k += 1
+    contest = Contest(CONTEST, [f(c) for c in case["cands"]], f(case["winner"]), case["tot"],
+                      order=[f(c) for c in case["outcome"]])
     return contest, cvrs
 
 
@@ -136,17 +205,22 @@ def run_impl(case):
     from shangrla.raire.raire import compute_raire_assertions
     from shangrla.raire.raire_utils import NEBAssertion, NENAssertion
     contest, cvrs = build_inputs(case)
-    res = compute_raire_assertions(contest, cvrs, case["winner"], asn_of(case["asn"]), False)
+    res = compute_raire_assertions(contest, cvrs, ident(case)(case["winner"]), asn_of(case["asn"]), False)
     out = []
+    typ = int if case.get("ids") == "int" else str
+
+    def s_(c):
+        # back to the case's strings; an identifier of another type than the one handed in is shown as such
+        return str(c) if type(c) is typ else repr(c)
     for a in res:
         if a is None:
             out.append(None)
             continue
         neb = type(a) is NEBAssertion
-        out.append({"t": "NEB" if neb else "NEN", "w": a.winner, "l": a.loser,
-                    "e": [] if neb else list(a.eliminated),
+        out.append({"t": "NEB" if neb else "NEN", "w": s_(a.winner), "l": s_(a.loser),
+                    "e": [] if neb else [s_(c) for c in a.eliminated],
                     "vw": int(a.votes_for_winner), "vl": int(a.votes_for_loser), "d": float(a.difficulty),
-                    "ro": sorted([list(t) for t in a.rules_out]),
+                    "ro": sorted([[s_(c) for c in t] for t in a.rules_out]),
                     "cn": a.contest if isinstance(a.contest, str) else repr(type(a.contest))})
     return {"st": "ok", "as": out}
 
@@ -167,9 +241,13 @@ def precompute(cases):
     if len(cases) < 64:
         return
     ctx = mp.get_context("fork")
+    big = [c for c in cases if ncards(c) > BIG]
+    small = [c for c in cases if ncards(c) <= BIG]
     with ctx.Pool(min(16, os.cpu_count() or 4)) as pool:
-        res = pool.map(_pool_job, cases, chunksize=max(1, len(cases) // 256))
-    for c, (r, o4, o15) in zip(cases, res):
+        rb = pool.map_async(_pool_job, big, chunksize=1)      # seconds each: one per task, started first
+        rs = pool.map_async(_pool_job, small, chunksize=max(1, len(small) // 256))
+        res = rb.get() + rs.get()
+    for c, (r, o4, o15) in zip(big + small, res):
         k = case_key(c)
         _CACHE[k] = r
         _OCACHE[("C04", k)] = (r, o4)
@@ -192,14 +270,23 @@ def _cached_oracle(pid, f):
     return oracle
 
 
+MAXCARDS = 600000   # largest generated contest (the implementation needs ~1 s per 10^5 cards and 3 candidates)
+BIG = 2000       # contests with more cards travel to the driver as weighted signatures (it expands them)
+
+
+def ncards(case):
+    return sum(n for _, n in case["sigs"])
+
+
 def request(case):
-    cvrs = []
-    for r, n in case["sigs"]:
-        b = None if r is None else [[c, i] for i, c in enumerate(r)]
-        cvrs += [b] * n
-    return ("raire", "compute", {"cands": case["cands"], "cvrs": cvrs, "winner": case["winner"],
-                                 "tot": case["tot"], "outcome": case["outcome"], "asn": case["asn"],
-                                 "fuel": FUEL})
+    sigs = [[None if r is None else [[c, i] for i, c in enumerate(r)], n] for r, n in case["sigs"]]
+    a = {"cands": case["cands"], "winner": case["winner"], "tot": case["tot"], "outcome": case["outcome"],
+         "asn": case["asn"], "fuel": FUEL}
+    if ncards(case) > BIG:
+        a["sigs"] = sigs
+    else:
+        a["cvrs"] = [b for b, n in sigs for _ in range(n)]
+    return ("raire", "compute", a)
 
 
 def bits_to_float(n):
@@ -245,6 +332,8 @@ def signature(case, ir):
     if any(a and a["t"] == "NEN" and len(a["ro"]) > 1 for a in res):
         flags.append("nen-merged")          # de-duplication or NEN subsumption merged tails
     s = f"n={n};{'+'.join(sorted(kinds))};{case['asn']};{hint};{'+'.join(flags) if flags else 'plain'}"
+    if ncards(case) > BIG:
+        s += ";near-tie@1e5"
     return ("trivial:" if n < 3 else "") + s
 
 
@@ -272,7 +361,24 @@ def corpus():
         # first-round tie
         {"cands": ["A", "B", "C"], "sigs": [[["A"], 5], [["B", "A"], 2], [["C", "A"], 2]], "winner": "A", "tot": 9,
          "outcome": [], "asn": "cp"},
+        # identifiers that are concatenations of one another (the numeric ids of the shipped .raire files): the tails
+        # ['2','3'] and ['23'] differ although their joined texts agree
+        {"cands": ["1", "2", "3", "23"], "sigs": [[["3", "1"], 13], [["2", "23", "3"], 12], [["23", "3", "1"], 5]],
+         "winner": "3", "tot": 30, "outcome": [], "asn": "bp"},
+        {"cands": ["1", "2", "3", "23"], "sigs": [[["3", "1"], 13], [["2", "23", "3"], 12], [["23", "3", "1"], 5]],
+         "winner": "3", "tot": 30, "outcome": ["1", "23", "2", "3"], "asn": "cp", "ids": "int"},
+        # a contest of state-wide size whose optimum is decided by one vote in a margin of ~1.4e5: the order B,A,C is
+        # contradicted by NEN(B>C | nobody eliminated) with margin M+1 (at the leaf) and by NEB(A>C) with margin M
+        # (at its ancestor [A,C]); relative gap of the two difficulties 1/M < 1e-5
+        _near_tie_witness(140000, "cp", ["C", "B", "A"]),
+        _near_tie_witness(131071, "bp", []),
     ]
+
+
+def _near_tie_witness(M, asn, hint):
+    sigs = [[["A"], 2 * M + 1], [["A", "C"], 3], [["B"], 3], [["B", "C"], M + 1], [["C", "A"], 3]]
+    return {"cands": ["A", "B", "C"], "sigs": sigs, "winner": "A", "tot": sum(n for _, n in sigs), "outcome": hint,
+            "asn": asn}
 
 
 def ballot_types(cands):
@@ -321,11 +427,34 @@ def gen_exhaustive(rng, tier):
                            "outcome": pick_hint(rng, cands, wb), "asn": rng.choice(["cp", "bp"])}
 
 
+# identifier styles.  The property quantifies over contests, not over how candidates are named: the result must not
+# depend on the identifiers beyond equality.  "digits" is the style of the shipped .raire files ('1'..'11'); in the
+# pools below one identifier is often the concatenation / a prefix / a suffix of others, so that any shortcut that
+# compares joined, formatted or hashed-together identifiers instead of the identifiers themselves shows.
+ID_POOLS = {
+    "digits": ["1", "2", "3", "12", "21", "23", "32", "11", "13", "31", "22", "123", "231"],
+    "affix": ["A", "B", "AB", "BA", "AA", "ABA", "BAB", "BB", "AAB"],
+    "words": ["Ann", "Anna", "na", "An", "nAn", "Jo", "José", "sé", "Zoë", "Zo", "ë", "é"],
+    "punct": ["a", "a,b", "b", "a b", " b", "(a", "a)", "a,", ",b"],
+}
+
+
+def pick_ids(rng, nc):
+    """(cands, ids) -- ids is "int" when the implementation is to receive Python ints"""
+    u = rng.random()
+    if u < 0.5:
+        cands = [chr(ord("A") + i) for i in range(nc)]
+        if rng.chance(0.3):
+            rng.shuffle(cands)
+        return cands, None
+    style = rng.choice(["digits", "digits", "digits", "affix", "words", "punct"])
+    cands = rng.sample(ID_POOLS[style], nc)
+    return cands, ("int" if style == "digits" and rng.chance(0.3) else None)
+
+
 def gen_random(rng):
     nc = rng.choice([2, 3, 3, 4, 4, 4, 5, 5, 5, 6, 6])
-    cands = [chr(ord("A") + i) for i in range(nc)]
-    if rng.chance(0.3):
-        rng.shuffle(cands)
+    cands, ids = pick_ids(rng, nc)
     nsig = rng.randint(1, min(12, 3 + 2 * nc))
     budget = rng.randint(1, 60)
     sigs = []
@@ -365,8 +494,68 @@ def gen_random(rng):
     true_order = irv_order(cands, wb, rng)
     u = rng.random()
     winner = true_order[-1] if u < 0.7 else rng.choice(cands)
-    return {"cands": cands, "sigs": sigs, "winner": winner, "tot": pick_tot(rng, sigs),
+    case = {"cands": cands, "sigs": sigs, "winner": winner, "tot": pick_tot(rng, sigs),
             "outcome": pick_hint(rng, cands, wb), "asn": rng.choice(["cp", "bp"])}
+    if ids:
+        case["ids"] = ids
+    return case
+
+
+def small_tied_profile(rng, nc, directed):
+    """a small profile (weights 1..6) in which two different assertions contradicting a binding order cost exactly
+    the same, namely OPT (rejection sampling; such exact ties are common among small integers)"""
+    cands = [chr(ord("A") + i) for i in range(nc)]
+    for _ in range(4000):
+        small = {}
+        for _ in range(rng.randint(3, 3 + nc)):
+            r = tuple(random_ranking(rng, cands))
+            small[r] = small.get(r, 0) + rng.randint(1, 6)
+        sigs = [[list(r), n] for r, n in small.items()]
+        wb = [(r, n) for r, n in small.items()]
+        winner = irv_order(cands, wb, rng)[-1]
+        for asn in rng.sample(["cp", "bp"], 2):
+            case = {"cands": cands, "sigs": sigs, "winner": winner, "tot": sum(small.values()), "asn": asn}
+            if near_tie_at_optimum(case, 0, directed):
+                return case
+    return None
+
+
+def gen_near_tie(rng, nc=3):
+    """A contest of 10^5..10^6 cards whose least difficult audit is decided by a near-tie: some binding alternative
+    order is contradicted by two different true assertions whose difficulties differ by less than 1e-5 relative
+    (a vote or two in a margin of >= 10^5), the cheaper one being OPT.  Both shipped difficulty functions are ratios
+    of vote counts, so no profile of a few hundred cards can hold such a pair.  Built by scaling a small profile with
+    an exact tie at the optimum and moving a few single ballots; returns None when the attempt fails."""
+    from fractions import Fraction
+    directed = rng.chance(0.7)
+    for _ in range(40):
+        base = small_tied_profile(rng, nc, directed)
+        if base is None:
+            return None
+        # scale: the binding margin must reach ~1e5 (cp: difficulty tot/m; bp: ~ tot*s/m^2, twice as sensitive)
+        ex = exact_asn(base["asn"])
+        opt = max(min(f + r) for _, f, r in order_families(base, ballots_of(base), ex))
+        frac = float(1 / opt) if base["asn"] == "cp" else float(1 / opt) ** 0.5   # ~ binding margin / tot (bp: <=)
+        target_m = rng.randint(105000, 150000) * (1 if base["asn"] == "cp" else 2)
+        K = int(target_m / frac) // base["tot"] + 1
+        if K * base["tot"] <= MAXCARDS:
+            break
+    else:
+        return None
+    rt = Fraction(1, 100000)
+    cands = base["cands"]
+    for _ in range(200):
+        sigs = {tuple(r): n * K for r, n in base["sigs"]}
+        for _ in range(rng.randint(1, 3)):
+            r = tuple(rng.choice(list(sigs)) if rng.chance(0.6) else random_ranking(rng, cands))
+            sigs[r] = max(0, sigs.get(r, 0) + rng.choice([-2, -1, 1, 1, 2]))
+        case = {"cands": cands, "sigs": [[list(r), n] for r, n in sigs.items() if n > 0], "winner": base["winner"],
+                "asn": base["asn"]}
+        case["tot"] = ncards(case)
+        if near_tie_at_optimum(case, rt, directed):
+            case["outcome"] = pick_hint(rng, cands, ballots_of(case))
+            return case
+    return None
 
 
 def gen(rng, n, tier):
@@ -384,6 +573,19 @@ def gen(rng, n, tier):
         d["outcome"] = [] if c["outcome"] else irv_order(c["cands"], ballots_of(c), rng)
         extra.append(d)
     cases += extra
+    # near-ties at the optimum in contests of 10^5..10^6 cards (seconds each on the implementation): a handful,
+    # spread evenly over the list so that the driver's shards get one each
+    nbig = min(64, max(8, n // 300))
+    bigs = []
+    for k in range(3 * nbig):
+        if len(bigs) >= nbig:
+            break
+        c = gen_near_tie(rng, 4 if (tier == "thorough" and k % 8 == 7) else 3)
+        if c is not None:
+            bigs.append(c)
+    step = max(1, len(cases) // (len(bigs) + 1))
+    for k, c in enumerate(bigs):
+        cases.insert(min(len(cases), (k + 1) * step + k), c)
     precompute(list(corpus()) + cases)
     yield from cases
 
@@ -447,6 +649,33 @@ def _oracle_c15(case, ir):
     if abs(got - opt) > TOL * max(1.0, abs(opt)):
         return {"what": f"largest difficulty returned {got!r}, least possible {opt!r} "
                         f"(hardest alternative order {list(worst)})"}
+    # the same statement in exact arithmetic.  Both shipped difficulty functions are ratios of integers (vote counts),
+    # so the difficulty of each returned assertion (recounted from the CVRs, not taken from its attributes) and the
+    # min-max optimum are computed as exact fractions.  Two different difficulties can lie closer than any float
+    # tolerance suited to small contests (one vote in a margin of 10^5 is a relative 1e-5), and picking the harder one
+    # is exactly what the property forbids.  A relative 1e-12 is allowed because the implementation orders difficulties
+    # as IEEE doubles: exact values closer than that need not be told apart (their float images carry a relative
+    # error of up to ~1e-16 * tot/margin).
+    ex = exact_asn(case["asn"])
+    tot = case["tot"]
+    opt_x, worst = None, None
+    for pi in alt_orders(cands, winner):
+        b = best_true_difficulty(case, wb, pi, ex)
+        if opt_x is None or b > opt_x:
+            opt_x, worst = b, pi
+    got_x = None
+    for a in res:
+        W, L = tally_neb(wb, a["w"], a["l"]) if a["t"] == "NEB" else tally_nen(wb, a["w"], a["l"], a["e"])
+        if not W > L:
+            return None     # a false assertion: C04's business
+        d = ex(W, L, tot - (W + L), tot)
+        if got_x is None or d > got_x:
+            got_x, hardest = d, a
+    if got_x != opt_x and abs(got_x - opt_x) > opt_x / 10 ** 12:
+        return {"what": f"the hardest returned assertion {hardest['t']}({hardest['w']},{hardest['l']},{hardest['e']}) "
+                        f"has difficulty {got_x} = {float(got_x)!r}; the least difficult sufficient set of true "
+                        f"assertions has largest difficulty {opt_x} = {float(opt_x)!r} (hardest alternative order "
+                        f"{list(worst)}); relative excess {float(got_x / opt_x - 1):.3e}"}
     return None
 
 
